@@ -1,17 +1,17 @@
 (* C12 — adaptive Simpson (translated quad_asr / simpson_adaptive / simpson_adaptive_2d over R and C):
    exact on cubics for every tolerance and depth; the accepted (Richardson-corrected) value is exact up to degree 5 and
    the acceptance test bounds the error of the uncorrected value; the number of integrand calls is at most
-   2^(depth+1)+1 for EVERY integrand (1-D) and its square (2-D); the algorithm is symmetric in its endpoints, hence
-   reversing the interval does NOT negate the result (finding F5c, see Findings/C12_adaptive_reverse.v). *)
+   2^(depth+1)+1 for EVERY integrand (1-D) and its square (2-D).  (That the pinned algorithm is symmetric in its endpoints,
+   so that reversing the interval does NOT negate the result, is finding F5c: Findings/C12_adaptive_reverse.v.)
+   The proofs below do not depend on whether the panel value carries |b - a| or (b - a): they are stated for a <= b. *)
 From Coq Require Import Reals QArith ZArith List Bool Lra Lia.
 From Coquelicot Require Import Coquelicot.
 From SpdVerif Require Import Base.NumOps Gen.Integration Model.Quadrature Proofs.C12_base Proofs.C12_simpson Proofs.C12_rule.
 Import ListNotations.
 Local Open Scope R_scope.
 
-(* one Simpson panel as quad_simpsons_mem computes it *)
-Definition S3 (f : R -> C) (a b : R) : C :=
-  vscale Rops (Rabs (b - a) / 6) (vadd Rops (vadd Rops (f a) (vscale Rops 4 (f ((a + b) / 2)))) (f b)).
+(* one Simpson panel as the translated quad_simpsons_mem computes it *)
+Definition S3 (f : R -> C) (a b : R) : C := snd (quad_simpsons_mem Rops f a (f a) b (f b)).
 
 Lemma qsm_eq : forall (f : R -> C) (a b : R),
   quad_simpsons_mem Rops f a (f a) b (f b) = ((a + b) / 2, f ((a + b) / 2), S3 f a b).
@@ -58,15 +58,23 @@ Lemma simpson_adaptive_calls_asr : forall (f : R -> C) fc (a b eps : R) d,
 Proof. intros. unfold simpson_adaptive_calls. cbv zeta. rewrite qsm_eq. reflexivity. Qed.
 
 (* ------------------------------------------------------------------ exactness on cubics *)
-Lemma S3_fst : forall f a b, fst (S3 f a b) = Rabs (b - a) / 6 * (fst (f a) + 4 * fst (f ((a + b) / 2)) + fst (f b)).
-Proof. intros. reflexivity. Qed.
-Lemma S3_snd : forall f a b, snd (S3 f a b) = Rabs (b - a) / 6 * (snd (f a) + 4 * snd (f ((a + b) / 2)) + snd (f b)).
-Proof. intros. reflexivity. Qed.
+Lemma S3_components : forall (f : R -> C) (a b : R), a <= b ->
+  fst (S3 f a b) = (b - a) / 6 * (fst (f a) + 4 * fst (f ((a + b) / 2)) + fst (f b)) /\
+  snd (S3 f a b) = (b - a) / 6 * (snd (f a) + 4 * snd (f ((a + b) / 2)) + snd (f b)).
+Proof.
+  intros f a b Hab. unfold S3, quad_simpsons_mem. cbv zeta.
+  cbn [fst snd vscale vadd sdiv sadd ssub sabs s_of_Z Rops]. try rewrite (Rabs_right (b - a)) by lra.
+  split; reflexivity.
+Qed.
+Lemma S3_fst : forall f (a b : R), a <= b -> fst (S3 f a b) = (b - a) / 6 * (fst (f a) + 4 * fst (f ((a + b) / 2)) + fst (f b)).
+Proof. intros f a b H. apply (S3_components f a b H). Qed.
+Lemma S3_snd : forall f (a b : R), a <= b -> snd (S3 f a b) = (b - a) / 6 * (snd (f a) + 4 * snd (f ((a + b) / 2)) + snd (f b)).
+Proof. intros f a b H. apply (S3_components f a b H). Qed.
 
 Lemma S3_real_cubic : forall cs (a b : R), a <= b -> (length cs <= 4)%nat ->
-  Rabs (b - a) / 6 * (peval cs a + 4 * peval cs ((a + b) / 2) + peval cs b) = pint cs a b.
+  (b - a) / 6 * (peval cs a + 4 * peval cs ((a + b) / 2) + peval cs b) = pint cs a b.
 Proof.
-  intros cs a b Hab Hl. rewrite Rabs_right by lra. unfold pint.
+  intros cs a b Hab Hl. unfold pint.
   pose proof (panel_exact_cubic cs a ((b - a) / 2) Hl) as H.
   replace (a + (b - a) / 2) with ((a + b) / 2) in H by field.
   replace (a + 2 * ((b - a) / 2)) with b in H by field.
@@ -76,8 +84,8 @@ Qed.
 Lemma S3_cubic : forall cs (a b : R), a <= b -> (length cs <= 4)%nat -> S3 (cpeval Rops cs) a b = cpint Rops cs a b.
 Proof.
   intros cs a b Hab Hl. apply pair_eq.
-  - rewrite S3_fst, cpint_fst, !cpeval_fst. apply S3_real_cubic; [exact Hab | rewrite map_length; exact Hl].
-  - rewrite S3_snd, cpint_snd, !cpeval_snd. apply S3_real_cubic; [exact Hab | rewrite map_length; exact Hl].
+  - rewrite S3_fst by exact Hab. rewrite cpint_fst, !cpeval_fst. apply S3_real_cubic; [exact Hab | rewrite map_length; exact Hl].
+  - rewrite S3_snd by exact Hab. rewrite cpint_snd, !cpeval_snd. apply S3_real_cubic; [exact Hab | rewrite map_length; exact Hl].
 Qed.
 
 Lemma cpint_split : forall cs (a m b : R), vadd Rops (cpint Rops cs a m) (cpint Rops cs m b) = cpint Rops cs a b.
@@ -119,13 +127,12 @@ Proof. intros. rewrite simpson_adaptive_asr. apply asr_cubic_exact; assumption. 
 Lemma richardson_real_quintic : forall cs (a b : R), a <= b -> (length cs <= 6)%nat ->
   let p := peval cs in
   let m := (a + b) / 2 in
-  let L := Rabs (m - a) / 6 * (p a + 4 * p ((a + m) / 2) + p m) in
-  let Rr := Rabs (b - m) / 6 * (p m + 4 * p ((m + b) / 2) + p b) in
-  let W := Rabs (b - a) / 6 * (p a + 4 * p ((a + b) / 2) + p b) in
+  let L := (m - a) / 6 * (p a + 4 * p ((a + m) / 2) + p m) in
+  let Rr := (b - m) / 6 * (p m + 4 * p ((m + b) / 2) + p b) in
+  let W := (b - a) / 6 * (p a + 4 * p ((a + b) / 2) + p b) in
   L + Rr + (L + Rr - W) / 15 = pint cs a b.
 Proof.
-  intros cs a b Hab Hl. cbv zeta.
-  rewrite !Rabs_right by lra. unfold pint, prim.
+  intros cs a b Hab Hl. cbv zeta. unfold pint, prim.
   destruct cs as [|c0 [|c1 [|c2 [|c3 [|c4 [|c5 [|c6 cs]]]]]]]; cbn [length] in Hl; try lia;
   cbn [prim_from peval Z.add Pos.add Pos.succ]; field.
 Qed.
@@ -135,9 +142,9 @@ Theorem richardson_quintic : forall cs (a b : R), a <= b -> (length cs <= 6)%nat
 Proof.
   intros cs a b Hab Hl. unfold richardson, delta.
   apply pair_eq; cbn [vadd vsub vdiv Rops fst snd].
-  - rewrite !S3_fst, cpint_fst, !cpeval_fst.
+  - rewrite !S3_fst by lra. rewrite cpint_fst, !cpeval_fst.
     apply (richardson_real_quintic (map fst cs) a b Hab). rewrite map_length. exact Hl.
-  - rewrite !S3_snd, cpint_snd, !cpeval_snd.
+  - rewrite !S3_snd by lra. rewrite cpint_snd, !cpeval_snd.
     apply (richardson_real_quintic (map snd cs) a b Hab). rewrite map_length. exact Hl.
 Qed.
 
@@ -194,47 +201,6 @@ Proof.
   unfold Rbool_le. destruct (Rle_dec 0 (15 * eps)); [lia | lra].
 Qed.
 
-(* ------------------------------------------------------------------ symmetry in the endpoints *)
-Lemma vadd_comm : forall u v : C, vadd Rops u v = vadd Rops v u.
-Proof. intros [a b] [c d]. cbn [vadd Rops fst snd]. f_equal; ring. Qed.
-
-Lemma S3_sym : forall (f : R -> C) (a b : R), S3 f b a = S3 f a b.
-Proof.
-  intros f a b. unfold S3. rewrite (Rabs_minus_sym a b). replace ((b + a) / 2) with ((a + b) / 2) by field.
-  destruct (f a) as [x y], (f b) as [u v], (f ((a + b) / 2)) as [s t]. cbn [vscale vadd Rops fst snd]. f_equal; ring.
-Qed.
-
-Lemma stop_sym : forall eps a b, stop eps b a = stop eps a b.
-Proof. intros. unfold stop. rewrite (Rabs_minus_sym a b). reflexivity. Qed.
-
-Lemma delta_sym : forall f a b, delta f b a = delta f a b.
-Proof.
-  intros. unfold delta. replace ((b + a) / 2) with ((a + b) / 2) by field.
-  rewrite (S3_sym f a b), (S3_sym f ((a + b) / 2) b), (S3_sym f a ((a + b) / 2)).
-  rewrite (vadd_comm (S3 f ((a + b) / 2) b)). reflexivity.
-Qed.
-
-Theorem asr_sym : forall (f : R -> C) d (a b eps : R), asr f b a eps d = asr f a b eps d.
-Proof.
-  intros f. induction d as [|d IH]; intros a b eps.
-  - rewrite !asr_0. apply S3_sym.
-  - rewrite !asr_S. rewrite stop_sym, S3_sym. destruct (stop eps a b); [reflexivity|].
-    unfold accept, richardson. rewrite delta_sym. replace ((b + a) / 2) with ((a + b) / 2) by field.
-    rewrite (S3_sym f ((a + b) / 2) b), (S3_sym f a ((a + b) / 2)).
-    rewrite (vadd_comm (S3 f ((a + b) / 2) b)).
-    destruct (Rbool_le _ _); [reflexivity|].
-    rewrite (IH ((a + b) / 2) b), (IH a ((a + b) / 2)). apply vadd_comm.
-Qed.
-
-Theorem simpson_adaptive_symmetric : forall (f : R -> C) (a b eps : R) d,
-  simpson_adaptive Rops f b a eps d = simpson_adaptive Rops f a b eps d.
-Proof. intros. rewrite !simpson_adaptive_asr. apply asr_sym. Qed.
-
-(* what reversal does give for a > b on cubics: the integral over the re-oriented interval, not its negative *)
-Corollary simpson_adaptive_cubic_reversed : forall cs (a b eps : R) d, a <= b -> (length cs <= 4)%nat ->
-  simpson_adaptive Rops (cpeval Rops cs) b a eps d = cpint Rops cs a b.
-Proof. intros. rewrite simpson_adaptive_symmetric. apply simpson_adaptive_cubic_exact; assumption. Qed.
-
 (* ------------------------------------------------------------------ statements in the form Props/C12.v exports *)
 Lemma simpson_adaptive_step : forall (f : R -> C) (a b eps : R) d,
   simpson_adaptive Rops f a b eps (S d) =
@@ -252,7 +218,10 @@ Qed.
 
 Lemma accept_zero_example : accept (fun _ => (0, 0)) 0 1 1 = true.
 Proof.
-  unfold accept, delta, S3, Rbool_le. cbn [vscale vadd vsub Rops fst snd].
+  unfold accept, Rbool_le.
   destruct (Rle_dec _ _) as [|H]; [reflexivity|]. exfalso. apply H.
-  replace (_ - _, _ - _) with (RtoC 0) by (unfold RtoC; f_equal; ring). rewrite Cmod_0. lra.
+  replace (delta (fun _ => (0, 0)) 0 1) with (RtoC 0); [rewrite Cmod_0; lra|].
+  symmetry. unfold delta. apply pair_eq; cbn [vsub vadd Rops fst snd RtoC].
+  - rewrite !S3_fst by lra. cbn [fst]. field.
+  - rewrite !S3_snd by lra. cbn [snd]. field.
 Qed.
